@@ -203,6 +203,19 @@ static int run_paths(const tensor_size_t folds, const tensor_size_t trials)
     return mismatches;
 }
 
+// informational: optimum_trial() starts its running minimum at DBL_MAX, so a trial whose mean validation error is exactly
+// DBL_MAX never wins against +inf
+static void run_corner()
+{
+    auto       result = ml::result_t{make_spaces(1, 4), 1};
+    tensor2d_t params(2, 1);
+    params.zero();
+    result.add(params);
+    result.store(0, 0, make_values(0.0, 0.0, 1), make_values(std::numeric_limits<double>::infinity(), 0.0, 1));
+    result.store(1, 0, make_values(0.0, 0.0, 1), make_values(std::numeric_limits<double>::max(), 0.0, 1));
+    std::printf("{\"corner\": \"value(0)=%g value(1)=%g optimum_trial=%d\"}\n", result.value(0), result.value(1), static_cast<int>(result.optimum_trial()));
+}
+
 int main(int argc, char** argv)
 {
     const std::string what = argc > 1 ? argv[1] : "all";
@@ -222,6 +235,7 @@ int main(int argc, char** argv)
     }
     if (what == "paths" || what == "all")
     {
+        run_corner();
         run_paths(2, 3);
         run_paths(3, 3);
     }
